@@ -32,9 +32,11 @@ Rng(s) == { s[i] : i \in DOMAIN s }
 
 (* ======================= property level (the statement of C43) ======================= *)
 
-(* "cacheable frontend requests": what the frontend sends through the results cache at all    *)
-(* (shouldCache: deduplication on, no store matchers, no Cache-Control: no-store).            *)
-Cacheable(r) == r.storem = <<>> /\ ~r.nostore /\ (r.kind = "labels" \/ r.dedup)
+(* "cacheable frontend requests" are the requests the frontend sends through the results cache.  In  *)
+(* traces that is OBSERVED (shouldCache of the real code said yes); ShouldCache is the algorithm-    *)
+(* level transcription (deduplication on, no store matchers, no Cache-Control: no-store) used by     *)
+(* the model and for conformance.                                                                   *)
+ShouldCache(r) == r.storem = <<>> /\ ~r.nostore /\ (r.kind = "labels" \/ r.dedup)
 
 (* resolution: max_source_resolution selects one of three data resolutions (raw / 5m / 1h); two  *)
 (* values that select the same one cannot change the answer (weakest reading of "resolution").  *)
@@ -61,12 +63,17 @@ DiffFields(a, b) ==
     \cup (IF a.kind \in {"range", "series"} /\ FlatSet(a.replicas) # FlatSet(b.replicas) THEN {"replicas"} ELSE {})
     \cup (IF a.kind \in {"labels", "series"} /\ Rng(a.matchers) # Rng(b.matchers) THEN {"matchers"} ELSE {})
     \cup (IF a.kind = "labels" /\ Flat(a.label) # Flat(b.label) THEN {"label"} ELSE {})
+    (* deduplication and store matchers change the answer as well; today such requests bypass the cache, *)
+    (* so they only matter if an implementation starts caching them                                      *)
+    \cup (IF a.kind \in {"range", "series"} /\ a.dedup # b.dedup THEN {"dedup"} ELSE {})
+    \cup (IF Rng(a.storem) # Rng(b.storem) THEN {"storematchers"} ELSE {})
 
 (* "Two cacheable frontend requests that differ in tenant or in any parameter that can change  *)
 (* the answer ... never map to the same cache key."  Requests of one kind and one interval of   *)
 (* one cache are compared (the time range is not a key parameter: extents handle it).          *)
 SameSlot(a, b) == a.kind = b.kind /\ a.split = b.split /\ a.start \div a.split = b.start \div b.split
-MustDiffer(a, b) == SameSlot(a, b) /\ Cacheable(a) /\ Cacheable(b) /\ DiffFields(a, b) # {}
+MustDifferIf(a, b, ca, cb) == SameSlot(a, b) /\ ca /\ cb /\ DiffFields(a, b) # {}
+MustDiffer(a, b) == MustDifferIf(a, b, ShouldCache(a), ShouldCache(b))
 
 (* Known findings (KNOWN_FINDINGS.jsonl), each decided from the pair of inputs alone: the pair   *)
 (* differs ONLY in a parameter the key format does not contain.                                  *)
